@@ -275,11 +275,18 @@ func (p *Path) runFrame(fr *frame) {
 			return // normal return
 		}
 		r := recover()
-		switch r.(type) {
+		switch rr := r.(type) {
 		case targetPanic:
-		default:
-			// pathEnd, engineError, interpreter crash: never run target defers
+		case pathEnd, engineError:
 			panic(r)
+		default:
+			// interpreter crash (a Go runtime error inside the engine): attach the
+			// target stack once, at the innermost frame
+			var sb strings.Builder
+			for f, n := fr, 0; f != nil && n < 12; f, n = f.caller, n+1 {
+				fmt.Fprintf(&sb, "  at %s %s [%v]\n", f.fn.String(), posOf(p, f.curInstr), f.curInstr)
+			}
+			panic(engineError{fmt.Sprintf("interpreter crash: %v\n%s", rr, sb.String())})
 		}
 		fr.panicking = true
 		fr.panicVal = r
